@@ -148,11 +148,17 @@ def first_diff(a, b):
     return f"lengths {len(a)} vs {len(b)}"
 
 
-def plant(candles):
+def plant(candles, name=None):
+    """entries somebody else wrote; with `name`: also entries whose names extend the indicator's own name (another
+    member created with a name_suffix, a longer period such as EMA_5 / EMA_50) - they are not the indicator's"""
     for i, c in enumerate(candles):
         c.indicators["FOREIGN"] = float(i)
         c.indicators["FOREIGN_d"] = {"x": i, "y": None}
         c.sub_indicators["FOREIGN_sub"] = -float(i)
+        if name:
+            c.indicators[name + "_user"] = float(i) + 0.5
+            c.indicators[name + "0"] = float(i) + 0.25
+            c.sub_indicators[name + "_user_sub"] = float(i) + 0.75
 
 
 # ------------------------------------------------------------------------------------------------ 1-4 per class
@@ -185,7 +191,7 @@ def check_class(col, key, candles, stream_text):
     for how in ("Indicator.purge", "Hexital.purge", "Hexital.remove_indicator"):
         col.tick()
         cs = gen.clone(candles)
-        plant(cs)
+        plant(cs, name)
         ind = build(key)
         hexi = Hexital("c14", cs, [ind])
         pristine = entries(hexi.candles())
